@@ -10,7 +10,7 @@
 //       as above up to text; its message lines are sorted bytewise; every group
 //       is a '/'-separated list of index lists i.i.i (a permutation of a subset
 //       of the lines); each is loaded into a fresh instance
-//     -> n=<number of lines> then per group (';') per permutation ('/'):
+//     -> n=<number of lines> then per group (';') per permutation ('!'):
 //          <ret>@<order in which the loader handed the messages out>@<dump | '=' when equal to the group's first>
 //   rej <tree> <flat> <file hex> <appname> <abstract file>
 //       the given text loaded into a fresh instance
@@ -117,7 +117,7 @@ int main()
                                 if(k >= ls.size()) { bad = true; break; }
                                 t += ls[k] + "\n";
                             }
-                        if(!firstp) out << "/";
+                        if(!firstp) out << "!";
                         if(bad) { out << "BADINDEX"; firstp = false; continue; }
                         std::unique_ptr<Root> B(new Root());
                         OrderLog lg;
